@@ -182,8 +182,7 @@ theorem release_nests (rec : Center → Op → Center × List Ev) (c : Center) (
 theorem release_last (rec : Center → Op → Center × List Ev) (c : Center) (hk : HKey) (hd : Hold)
     (hg : AL.get? c.holds hk = some hd) (hc : hd.count = 1) :
     release rec c hk =
-      let r := runAll (fun c (q : Note) => post rec c q.name q.sender q.data q.target)
-                 { c with holds := AL.erase c.holds hk } hd.queue
+      let r := runAll (repost rec) { c with holds := AL.erase c.holds hk } hd.queue
       (r.1, r.2 ++ [.ret .ok]) := by
   unfold release
   simp [hg, hc]
@@ -327,7 +326,7 @@ theorem find_exact (c : Center) (o : Option Obj) (n : Option Name) (s : Option O
     f ∈ findObs c o n s pat ↔
       ∃ kr ∈ c.registry, ∃ r ∈ kr.2,
         keyOk n s kr.1 = true ∧ identOk pat r.ident = true ∧ obsOk o r.observer = true ∧
-        f = ⟨if r.observer ∈ c.dead then none else some r.observer, kr.1.2, kr.1.1, r.ident⟩ := by
+        f = ⟨liveRef c r.observer, liveRef? c kr.1.2, kr.1.1, r.ident⟩ := by
   unfold findObs
   simp only [List.mem_flatMap]
   constructor
